@@ -64,3 +64,36 @@ package actionlint
 // whole spec (owner/repo/path@ref), not of a part of it
 //@ func (*RuleAction).checkRepoAction
 //@   at_call [C14] (*RuleAction).checkAction: PopularActions.has(spec0) && meta == PopularActions[spec0]
+
+// C14: which check a `uses:` of a step gets: a path below the repository (./...) is a local action, docker://
+// is a container image, everything else is owner/repo[/path]@ref; a value with a placeholder is not checked
+//@ func (*RuleAction).VisitStep
+//@   props C14
+//@   body_calls (*RuleAction).checkLocalAction iff istype(n.Exec, "*ExecAction") && dyn(n.Exec, "*ExecAction").Uses != nil && !hasexpr(dyn(n.Exec, "*ExecAction").Uses.Value) && hasprefix(dyn(n.Exec, "*ExecAction").Uses.Value, "./")
+//@   body_calls (*RuleAction).checkDockerAction iff istype(n.Exec, "*ExecAction") && dyn(n.Exec, "*ExecAction").Uses != nil && !hasexpr(dyn(n.Exec, "*ExecAction").Uses.Value) && !hasprefix(dyn(n.Exec, "*ExecAction").Uses.Value, "./") && hasprefix(dyn(n.Exec, "*ExecAction").Uses.Value, "docker://")
+//@   body_calls (*RuleAction).checkRepoAction iff istype(n.Exec, "*ExecAction") && dyn(n.Exec, "*ExecAction").Uses != nil && !hasexpr(dyn(n.Exec, "*ExecAction").Uses.Value) && !hasprefix(dyn(n.Exec, "*ExecAction").Uses.Value, "./") && !hasprefix(dyn(n.Exec, "*ExecAction").Uses.Value, "docker://")
+
+// C14: the outputs of a step are checked against the interface of the action it uses: the declared outputs of
+// a local action that could be read, of the bundled entry of exactly this `uses:` value otherwise; unknown
+// actions (and github-script, whose outputs are set by the script) accept any output name
+//@ func (*RuleExpression).getActionOutputsType
+//@   props C14
+//@   body_calls NewEmptyObjectType iff spec != nil && !hasprefix(spec.Value, "./") && hasprefix(spec.Value, "actions/github-script@")
+//@   at_call typeOfActionOutputs: hasprefix(spec.Value, "./") || meta == PopularActions[spec.Value]
+
+// C14: which check the `uses:` of a job gets. localfmt / repofmt name the results of the two format tests
+// (functions of the text only): a well-formed local path is checked against the callee's interface, a well-formed
+// owner/repo/path@ref is accepted, anything else is reported as a malformed call - once, at the `uses:` value
+//@ spec localfmt(s: string): bool
+//@ spec repofmt(s: string): bool
+//@ func isWorkflowCallUsesLocalFormat
+//@   ensures result == localfmt(u)
+//@   trusted localfmt is the name of this function's result
+//@ func isWorkflowCallUsesRepoFormat
+//@   ensures result == repofmt(u)
+//@   trusted repofmt is the name of this function's result
+//@ func (*RuleWorkflowCall).VisitJobPre
+//@   props C14
+//@   body_calls (*RuleWorkflowCall).checkWorkflowCallUsesLocal iff n.WorkflowCall != nil && n.WorkflowCall.Uses != nil && n.WorkflowCall.Uses.Value != "" && !hasexpr(n.WorkflowCall.Uses.Value) && localfmt(n.WorkflowCall.Uses.Value)
+//@   body_calls (*RuleBase).Errorf iff n.WorkflowCall != nil && n.WorkflowCall.Uses != nil && n.WorkflowCall.Uses.Value != "" && !hasexpr(n.WorkflowCall.Uses.Value) && !localfmt(n.WorkflowCall.Uses.Value) && !repofmt(n.WorkflowCall.Uses.Value)
+//@   at_call (*RuleBase).Errorf: pos == n.WorkflowCall.Uses.Pos
